@@ -162,7 +162,9 @@ def _cfg_quire(tier):
 
 
 def _cfg_eer(tier):
-    return [dict(name=nm, n=3) for nm in (("ValueOfInformationEER",) if tier == "quick" else ("ValueOfInformationEER", "MonteCarloEER"))]
+    # (MonteCarloEER's misclassification loss forks on the maximum of every predicted row for every simulated label: its
+    #  exploration does not finish within 20 minutes for n = 3 and is left out)
+    return [dict(name="ValueOfInformationEER", n=n) for n in ((3,) if tier == "quick" else (3, 4))]
 
 
 def _cfg_rep(tier):
